@@ -26,7 +26,7 @@ def run(rep):
     quick = rep.tier == "quick"
     rng = random.Random(rep.seed)
     rep.rule = ("S->I: every scenario of the TLA+-enumerated universe (nesting x user-class set x failure point; quick: "
-                "one per nesting x user-class set x failure step) with seeded flavours and exception classes; I->S: seeded-random scenarios (flavour per class, <= 6 objects per file, "
+                "one per nesting x user-class set x failure step x failing file) with seeded flavours and exception classes; I->S: seeded-random scenarios (flavour per class, <= 6 objects per file, "
                 "depth <= 3, 1-3 files / provider-triggered nested load, one failure point or none). Non-trivial: "
                 "user classes present and (>= 2 objects initialised, or the load fails, or it is nested); distinct by content.")
     rep.assumptions = [
